@@ -7,11 +7,19 @@ it shares with the arguments (identity), then modified in place to see whether
 an argument moves.  The six case-(in)sensitive comparison filters (unique, sort,
 groupby, min, max, dictsort; bare and through attribute=) additionally get
 strings with special case mappings, and their contract is explicit that "case
-insensitive" compares str.lower() of the keys."""
+insensitive" compares str.lower() of the keys.  Every filter (plus items and
+random) is also driven with the same generated elements held in other subject
+types - dict / OrderedDict, dict views, set / frozenset, str, range, deque, list
+subclass, objects offering only one protocol (__iter__; __iter__+__len__;
+__reversed__+__len__; __getitem__+__len__), generators, other Mapping types, an
+undefined value - and held to its contract wherever the subject offers the
+protocol the docstring names; elsewhere only the four drives must agree."""
 from __future__ import annotations
 
+import collections
 import itertools
 import math
+import types
 
 from vt.gen import fcase_c2223 as F
 from vt.model import c22_spec as SP
@@ -21,7 +29,9 @@ LEVEL = "exploration"
 TECHNIQUE = ("contract monitor over the results of the real filters: per-filter executable "
              "specification (case-insensitive = keys compared lower-cased, told apart from other "
              "caseless forms by special-casing strings) + sync/async/template agreement + argument "
-             "fingerprints + result/argument aliasing (identity walk and modify-the-result probe)")
+             "fingerprints + result/argument aliasing (identity walk and modify-the-result probe); "
+             "subject-type dimension: the same contracts over every container type that offers "
+             "the protocol the docstring names")
 RULE = ("cases = (filter, subject kind, elements, positional/keyword arguments); an enumerated "
         "edge grid (batch/slice: every length 0-12 x count 1-5 x fill; unique/sort/groupby: every "
         "sequence of length<=4 over a small mixed-case alphabet x flags; unique/groupby/sort/min/"
@@ -51,8 +61,24 @@ RULE = ("cases = (filter, subject kind, elements, positional/keyword arguments);
         "subject and the arguments: list and sort must return a new list, an async drive may "
         "share no container its sync counterpart (same path: call_filter / template) does not "
         "share, and after the harness appends to / overwrites every result-owned container the "
-        "argument fingerprints must be unchanged. distinct = distinct (filter, kind, elements, args, kwargs) tuples "
-        "with >= 2 elements")
+        "argument fingerprints must be unchanged. SUBJECT TYPES: for all 21 filters plus items "
+        "and random, an enumerated grid (every (filter, subject kind) the generators can fill, "
+        "twice, from fixed seeds) and one random case per three cases of the main workload take "
+        "the elements and arguments of a generated case and hold the elements in another "
+        "container: dict / OrderedDict keys, dict.keys() / .values() / .items() views, set, "
+        "frozenset, str, range, deque, a list subclass, objects defining only __iter__, only "
+        "__iter__+__len__, only __reversed__+__len__, only __getitem__+__len__ (indexes "
+        "0..len-1), a generator, an undefined value (environment.undefined() for call_filter, a "
+        "missing variable in the template); dictsort / items get OrderedDict, MappingProxyType, "
+        "an abc.Mapping subclass, UserDict, defaultdict. The contract is applied when the "
+        "subject offers the protocol the docstring names (first and the iterating filters: "
+        "iterable; last: reversible - 'Does not work with generators' is the only exclusion; "
+        "length: sized; random: indexable and sized; dictsort/items: mapping; an undefined value "
+        "iterates as empty and items of it is empty), with expected items = what iterating the "
+        "subject yields; otherwise only call_filter/template and sync/async agreement is "
+        "demanded (never for random). Re-iterable subjects are re-read after every drive and "
+        "must still hold the same elements. distinct = distinct (filter, kind, elements, args, "
+        "kwargs) tuples with >= 2 elements")
 LEVEL_TEXT = ("held on K generated executions of the real filters covering the enumerated edge "
               "grid completely and a seeded random sample of the argument space; no claim beyond "
               "the generated element types")
@@ -68,6 +94,13 @@ ASSUMPTIONS = [
     "keys inside one case are mutually comparable and hashable",
     "an input that the docstring does not cover (first/min/max of an empty input, ties in "
     "min/max) is only checked for sync/async/template agreement",
+    "subject types: a filter documented on 'a sequence' / 'an iterable' / 'a container' may rely "
+    "on the protocol that Python definition uses (iter(), reversed(), len(), indexing for "
+    "random, .items() for dictsort/items) and on nothing else; where a subject lacks that "
+    "protocol (last of a set or generator, length of a generator, anything but items/iteration "
+    "on an undefined value, random of a dict) the documentation is silent and only agreement of "
+    "the four drives is checked; set subjects only hold elements hashed by value so that all "
+    "drives see one order",
     "aliasing: only list and sort are required outright to return a new list (list(value) / "
     "sorted(value)); for every other filter the sync variant is the reference for which "
     "containers of the arguments may appear inside the result (items passed through, the start "
@@ -75,6 +108,17 @@ ASSUMPTIONS = [
 ]
 NSHARDS = {"quick": 16, "thorough": 16}
 BUDGET_S = {"quick": 12, "thorough": 600}
+# per subject kind / per filter floors of the subject-type workload (quick tier;
+# about a third of what the grid + 16 x 66 guaranteed random cases give)
+_TYPED_FLOORS = {"typed_kind:" + k: n for ks, n in (
+    (("asdict", "odict", "dkeys", "dvalues", "set", "frozenset", "deque", "revlen", "getitem",
+      "sizediter", "listsub", "iter", "gen", "undef"), 35),
+    (("range", "str", "ditems"), 18),
+    (("m:odict", "m:proxy", "m:abc", "m:userdict", "m:defaultdict"), 8)) for k in ks}
+_TYPED_FLOORS.update({"typed:" + f: 30 for f in (
+    "first", "last", "length", "count", "list", "reverse", "sort", "unique", "min", "max", "sum",
+    "join", "batch", "slice", "map", "select", "reject", "selectattr", "rejectattr", "groupby",
+    "dictsort", "items", "random")})
 # the time box always lets 200 random cases per shard through, so the quick
 # floors sit just under what grid + 16 x 200 cases produce
 FLOORS = {
@@ -95,7 +139,13 @@ FLOORS = {
                            "fold_strict_random": 30,
                            "fold_strict:unique": 40, "fold_strict:sort": 40,
                            "fold_strict:groupby": 40, "fold_strict:min": 40,
-                           "fold_strict:max": 40, "fold_strict:dictsort": 40}},
+                           "fold_strict:max": 40, "fold_strict:dictsort": 40,
+                           # subject types: 689 grid cases + >= 66 random ones per shard
+                           "typed_cases": 1300, "typed_grid_cases": 600,
+                           "typed_contract_cases": 1100, "typed_oracle_evaluations": 4400,
+                           "typed_contract_non_sequence_subject": 500,
+                           "typed_agreement_only_cases": 100, "typed_undefined_subjects": 60,
+                           "typed_subject_snapshots": 4400, **_TYPED_FLOORS}},
     "thorough": {"evaluations": 600000, "distinct": 100000,
                  "counters": {"calls:call": 150000, "calls:tmpl": 150000, "calls:acall": 150000,
                               "calls:atmpl": 150000, "oracle_evaluations": 600000,
@@ -110,7 +160,14 @@ FLOORS = {
                               "fold_strict_random": 2500,
                               "fold_strict:unique": 400, "fold_strict:sort": 400,
                               "fold_strict:groupby": 400, "fold_strict:min": 400,
-                              "fold_strict:max": 400, "fold_strict:dictsort": 400}},
+                              "fold_strict:max": 400, "fold_strict:dictsort": 400,
+                              "typed_cases": 30000, "typed_grid_cases": 600,
+                              "typed_contract_cases": 25000, "typed_oracle_evaluations": 100000,
+                              "typed_contract_non_sequence_subject": 10000,
+                              "typed_agreement_only_cases": 2500,
+                              "typed_undefined_subjects": 1500,
+                              "typed_subject_snapshots": 100000,
+                              **{k: v * 20 for k, v in _TYPED_FLOORS.items()}}},
 }
 N_RANDOM = {"quick": 2000, "thorough": 80000}
 
@@ -360,7 +417,16 @@ def gen_case(rng, name):
                                  rng.random() < 0.4])
         args, kwargs = drop_defaults(rng, name, args, kwargs)
 
-    elif name in ("reverse", "first", "last", "list", "length", "count"):
+    elif name == "items":
+        kind = "dict"
+        keys = []
+        pool = WORDS if rng.random() < 0.7 else [1, 5, 3, 2, 9, 0, -4, 7, -1, 10]
+        for w in (rng.choice(pool) for _ in range(n)):
+            if w not in keys:
+                keys.append(w)
+        data = {k: rng.choice([rng.randint(0, 4), rng.choice(WORDS), None, [1]]) for k in keys}
+
+    elif name in ("reverse", "first", "last", "list", "length", "count", "random"):
         r = rng.random()
         if r < 0.3:
             data = ints(rng, n)
@@ -528,6 +594,109 @@ def gen_test(rng, n):
     return [rng.choice(bag) for _ in range(n)], t
 
 
+# --------------------------------------------------------------- subject types
+# Every filter is also driven with the SAME generated elements and arguments held
+# in other containers: what the filter may rely on is the protocol its docstring
+# names (c22_spec.KIND_CAPS / REQUIRES), not list/tuple.
+TYPED_FILTERS = FILTERS + SP.EXTRA_FILTERS
+ANY_KINDS = ["dvalues", "deque", "revlen", "getitem", "sizediter", "listsub", "iter", "gen",
+             "undef"]
+HASH_KINDS = ["asdict", "odict", "dkeys", "set", "frozenset"]
+MAP_KINDS = ["m:odict", "m:proxy", "m:abc", "m:userdict", "m:defaultdict", "undef"]
+TYPED_KINDS = ANY_KINDS + HASH_KINDS + ["range", "str", "ditems"] + MAP_KINDS[:-1]
+
+
+def _hashable(x):
+    try:
+        hash(x)
+    except TypeError:
+        return False
+    return True
+
+
+def _value_hashed(x):
+    if isinstance(x, tuple):
+        return all(_value_hashed(y) for y in x)
+    return x is None or isinstance(x, (bool, int, float, str))
+
+
+def typed_kinds_for(name, data):
+    """The subject kinds that can hold these elements for this filter."""
+    if name in ("dictsort", "items"):
+        return list(MAP_KINDS)
+    ks = list(ANY_KINDS)
+    if all(_hashable(x) for x in data):
+        # a set's order follows the hashes: only elements hashed by value, so that
+        # the four drives of a case see the same order
+        ks += HASH_KINDS if all(_value_hashed(x) for x in data) else HASH_KINDS[:3]
+    if all(type(x) is int for x in data):
+        ks.append("range")
+    if data and all(isinstance(x, str) and x for x in data):
+        ks.append("str")
+    if name in SP.ELEMENT_AGNOSTIC:
+        ks.append("ditems")
+    if name in SP.EXTRA_FILTERS:
+        ks += ["list", "tuple"]
+    return ks
+
+
+def gen_typed_case(rng, name, kind=None, min_len=0):
+    """A generated case of ``name`` whose elements are put into another
+    container type (``kind`` fixed or drawn); None when ``kind`` cannot hold
+    what the generator produced in a few attempts."""
+    for _ in range(12):
+        case = gen_case(rng, name)
+        data = F.dec(case["data"])
+        if case["kind"] == "str":
+            data = list(data)
+        if kind != "undef" and len(data) < min_len:
+            continue
+        ks = typed_kinds_for(name, data)
+        if kind is None:
+            k = rng.choice(ks)
+        elif kind in ks:
+            k = kind
+        else:
+            continue
+        if k == "undef":
+            data = {} if name in ("dictsort", "items") else []
+        elif k in HASH_KINDS:
+            data = list(dict.fromkeys(data))
+        elif k == "range":
+            start, step = rng.randint(-3, 5), rng.choice([1, 1, 2, 3, -1, -2])
+            if name in ("batch", "slice"):
+                # as in gen_case: no element may equal a fill value (0 / False)
+                start, step = rng.randint(1, 5), rng.choice([1, 1, 2, 3])
+            case["range"] = [start, start + step * len(data), step]
+            data = list(range(*case["range"]))
+        elif k == "str":
+            data = "".join(w[:1] for w in data)
+        if len(data) < min_len and k != "undef":
+            continue
+        case["kind"] = k
+        case["data"] = F.enc(data)
+        case["typed"] = True
+        return case
+    return None
+
+
+def typed_grid_cases():
+    """Every (filter, subject kind) that can be generated, twice, from fixed
+    seeds (the same list in every shard and for every VERIF_SEED)."""
+    import random
+
+    out = []
+    for name in TYPED_FILTERS:
+        for kind in TYPED_KINDS + (["list", "tuple"] if name in SP.EXTRA_FILTERS else []):
+            rng = random.Random(f"c22-typed-grid:{name}:{kind}")
+            for rep in range(2):
+                case = gen_typed_case(rng, name, kind, min_len=2 + rep)
+                if case is not None:
+                    case["via_render"] = False
+                    out.append(case)
+    return out
+
+
 def grid_cases():
     """Enumerated edge grid (the same list in every shard)."""
     out = []
@@ -612,6 +781,49 @@ def grid_cases():
 SYNC_KIND = {"agen": "gen", "aiter": "iter"}
 
 
+class _Undef:
+    def __repr__(self):
+        return "<an undefined value>"
+
+
+UNDEF = _Undef()   # replaced by environment.undefined() / a missing variable in drive()
+MAPPING_BUILDERS = {
+    "dict": lambda d: d,
+    "m:odict": lambda d: collections.OrderedDict(d),
+    "m:proxy": lambda d: types.MappingProxyType(d),
+    "m:abc": lambda d: F.AbcMapping(d),
+    "m:userdict": lambda d: collections.UserDict(d),
+    "m:defaultdict": lambda d: collections.defaultdict(list, d),
+}
+TYPED_BUILDERS = {
+    "asdict": lambda xs: dict.fromkeys(xs),
+    "odict": lambda xs: collections.OrderedDict.fromkeys(xs),
+    "dkeys": lambda xs: dict.fromkeys(xs).keys(),
+    "dvalues": lambda xs: dict(enumerate(xs)).values(),
+    "ditems": lambda xs: dict(enumerate(xs)).items(),
+    "set": lambda xs: set(xs),
+    "frozenset": lambda xs: frozenset(xs),
+    "range": None,
+    "deque": lambda xs: collections.deque(xs),
+    "revlen": lambda xs: F.RevLenOnly(xs),
+    "getitem": lambda xs: F.GetItemOnly(xs),
+    "sizediter": lambda xs: F.SizedIter(xs),
+    "listsub": lambda xs: F.ListSub(xs),
+}
+
+
+def resnap(subject, kind):
+    """The elements of a re-iterable subject as the caller sees them after the
+    call (None for one-shot / undefined subjects)."""
+    if kind in ("gen", "iter", "agen", "aiter", "undef"):
+        return None
+    if kind == "revlen":
+        return list(reversed(subject))[::-1]
+    if kind == "dict" or kind.startswith("m:"):
+        return list(subject.items())
+    return list(subject)
+
+
 def build(case, is_async):
     data = F.dec(case["data"])
     args = F.dec(case["args"])
@@ -619,10 +831,26 @@ def build(case, is_async):
     kind = case["kind"]
     if not is_async:
         kind = SYNC_KIND.get(kind, kind)
-    if kind == "dict":
-        items = list(data.items())
-        subject = data
+    if kind == "undef":
+        items = []
+        subject = UNDEF
         S = F.Sameness(())
+    elif kind == "dict" or kind.startswith("m:"):
+        items = list(data.items())
+        subject = MAPPING_BUILDERS[kind](data)
+        S = F.Sameness(())
+    elif kind in TYPED_BUILDERS:
+        S = F.Sameness(data)
+        if kind == "range":
+            subject = range(*case["range"])
+        else:
+            subject = TYPED_BUILDERS[kind](data)
+        if kind == "ditems":
+            items = [(i, x) for i, x in enumerate(data)]
+        elif kind in ("set", "frozenset"):
+            items = list(subject)
+        else:
+            items = list(data)
     elif kind == "str":
         items = list(data)
         subject = data
@@ -636,11 +864,15 @@ def build(case, is_async):
     return data, items, subject, args, kwargs, S, kind
 
 
+def same_elements(S, a, b):
+    return len(a) == len(b) and all(x is y or S.same(x, y) for x, y in zip(a, b))
+
+
 def template_src(case, args, kwargs, variables):
     name = case["filter"]
     expr = F.filter_expr(name, args, kwargs, variables, inline=case["inline"])
     form = case["form"]
-    lazy = name in SP.ITERATOR_RESULT and case["kind"] != "str"
+    lazy = name in SP.ITERATOR_RESULT and not (name == "reverse" and case["kind"] == "str")
     if lazy and form == "for":
         return "{% for x in " + expr + " %}{{ rec1(x) }}{% endfor %}"
     if lazy:
@@ -656,12 +888,20 @@ def drive(rig, case, path):
     data, items, subject, args, kwargs, S, kind = build(case, is_async)
     name = case["filter"]
     if path.endswith("call"):
+        if subject is UNDEF:
+            subject = (rig.aenv if is_async else rig.env).undefined(name="data")
         out = (rig.acall if is_async else rig.call)(name, subject, args, kwargs)
     else:
-        variables = {"data": subject}
+        # an undefined subject: the template names a variable that is not passed
+        variables = {} if subject is UNDEF else {"data": subject}
         src = template_src(case, args, kwargs, variables)
         out = rig.render(is_async, src, variables, via_render=case.get("via_render", False))
-    return out, data, items, args, kwargs, S, kind
+    moved = None
+    if case.get("typed") and subject is not UNDEF:
+        after = resnap(subject, kind)
+        if after is not None and not same_elements(S, after, items):
+            moved = after
+    return out, data, items, args, kwargs, S, kind, moved
 
 
 def arg_names(name, args, kwargs):
@@ -672,7 +912,69 @@ def arg_names(name, args, kwargs):
     return names
 
 
+class _Collector:
+    """Stands in for the harness context while a typed case runs: counters
+    pass through, violations are held back until their key is settled."""
+
+    def __init__(self, ctx):
+        self.ctx = ctx
+        self.viol = []
+
+    def ev(self, n=1):
+        if self.ctx is not None:
+            self.ctx.ev(n)
+
+    def count(self, name, n=1):
+        if self.ctx is not None:
+            self.ctx.count(name, n)
+
+    def violation(self, key, what, case):
+        self.viol.append((key, what, case))
+
+
+def twin_of(case):
+    """The same elements and arguments on a plain list (dict for the mapping
+    kinds) - None for an undefined subject, which has no such twin."""
+    kind = case["kind"]
+    if kind == "undef":
+        return None
+    twin = {k: v for k, v in case.items() if k not in ("typed", "range")}
+    data = F.dec(case["data"])
+    if kind.startswith("m:"):
+        twin["kind"] = "dict"
+    else:
+        twin["kind"] = "list"
+        if kind == "str":
+            data = list(data)
+        elif kind == "ditems":
+            data = [(i, x) for i, x in enumerate(data)]
+        twin["data"] = F.enc(data)
+    return twin
+
+
 def run_case(ctx, rig, case, count=True):
+    """Typed cases: a violation that the same elements on a plain list / dict
+    show as well is reported under the key without the subject kind (the
+    mechanism does not depend on the container)."""
+    if not case.get("typed"):
+        return _run_case(ctx, rig, case, count)
+    col = _Collector(ctx)
+    profile = _run_case(col, rig, case, count)
+    if col.viol:
+        twin = twin_of(case)
+        tkeys = set()
+        if twin is not None:
+            tcol = _Collector(None)
+            _run_case(tcol, rig, twin, count=False)
+            tkeys = {k for k, _, _ in tcol.viol}
+        tag = "/subject:" + SP.KIND_GROUP[case["kind"]]
+        for key, what, c in col.viol:
+            base = key.replace(tag, "")
+            ctx.violation(base if base in tkeys else key, what, c)
+    return profile
+
+
+def _run_case(ctx, rig, case, count=True):
     name = case["filter"]
     ref_data = F.fp(F.dec(case["data"]))
     ref_args = [F.fp(a) for a in F.dec(case["args"])]
@@ -681,18 +983,37 @@ def run_case(ctx, rig, case, count=True):
     sync_norm = None
     alias_ref = {}      # 'call' / 'tmpl' -> aliasing of the sync result
     profile = {}        # case-folding profile of the input (six comparison filters)
+    typed = bool(case.get("typed"))
+    # the documentation defines the result on this kind of subject (always true
+    # for the list/tuple/generator/... subjects of the main workload)
+    covered = SP.covered(name, case["kind"]) if typed else True
+    # typed subjects: the mechanism key names the kind of container
+    fkey = f"{name}/subject:{SP.KIND_GROUP[case['kind']]}" if typed else name
     for path in PATHS:
-        out, data, items, args, kwargs, S, kind = drive(rig, case, path)
+        out, data, items, args, kwargs, S, kind, moved = drive(rig, case, path)
         ctx.ev()
         if count:
             ctx.count("calls:" + path)
-            if kind in ("agen", "aiter"):
+            if typed:
+                pass
+            elif kind in ("agen", "aiter"):
                 ctx.count("async_iterable_subjects")
             elif kind in ("gen", "iter"):
                 ctx.count("lazy_sync_subjects")
         is_async = path[0] == "a"
+        if name == "reverse" and out.ok and not isinstance(out.value, (str, list, tuple)) \
+                and hasattr(out.value, "__iter__"):
+            # "Reverse the object or return an iterator ...": a re-iterable reversed
+            # object (a reversed range) is as good as an iterator
+            out.value = list(out.value)
         # ---- result
-        if out.ok:
+        if not covered:
+            # documentation silent: only the four drives have to agree
+            verdict = None
+            norm = ("ok", S.norm(out.value)) if out.ok else ("raises", out.exc_name())
+            if count:
+                ctx.count("typed_agreement_only_drives")
+        elif out.ok:
             info = {}
             verdict = SP.check(name, items, kind, args, kwargs, out.value, S, info)
             if path == "call":
@@ -701,16 +1022,34 @@ def run_case(ctx, rig, case, count=True):
         else:
             verdict = ("raises:" + out.exc_name(), out.describe())
             norm = ("raises", out.exc_name())
-        if count:
-            ctx.count("oracle_evaluations")
+        if name in SP.NONDETERMINISTIC and (out.ok or not covered):
+            # a random choice: the drives legitimately differ (on a subject the
+            # documentation does not cover even in whether the index is a key)
+            norm = ("ok", "<one of the items>")
+        if count and (covered or not typed):
+            ctx.count("typed_oracle_evaluations" if typed else "oracle_evaluations")
         if desc is None:
             desc = (f"{name} on {kind} {F.dec(case['data'])!r:.300} args={F.dec(case['args'])!r} "
                     f"kwargs={F.dec(case['kwargs'])!r}")
+        if moved is not None:
+            ctx.violation(f"mutates:{'async' if is_async else 'sync'}:{fkey}/arg:value",
+                          f"[{path}] {desc}: the subject container holds {moved!r:.300} after "
+                          f"the call", case)
+        if count and typed:
+            ctx.count("typed_subject_snapshots")
         if path == "call":
             sync_norm = norm
             if verdict:
-                ctx.violation(f"filter:{name}/{verdict[0]}",
+                ctx.violation(f"filter:{fkey}/{verdict[0]}",
                               f"[{path}] {desc}: {verdict[1]}", case)
+        elif typed and norm != sync_norm:
+            # (same key scheme as the main workload below, plus the subject kind)
+            where = "async" if is_async else "template"
+            aspect = "differs-from-call_filter" if not is_async else \
+                (verdict[0] if verdict else "result-differs-from-sync")
+            ctx.violation(f"{where}:{fkey}/{aspect}",
+                          f"[{path}] {desc}: {out.describe()} but sync call_filter gave "
+                          f"{sync_norm!r:.300}" + (f" ({verdict[1]})" if verdict else ""), case)
         elif norm != sync_norm:
             if not is_async:
                 ctx.violation(f"template:{name}/differs-from-call_filter",
@@ -771,6 +1110,8 @@ def run_case(ctx, rig, case, count=True):
             base = alias_ref.get(path[-4:])
             if not is_async:
                 alias_ref[path[-4:]] = pairs
+            elif name in SP.NONDETERMINISTIC:
+                pass
             elif base is not None and not set(pairs) <= set(base):
                 extra = sorted(set(pairs) - set(base))
                 r, a = extra[0]
@@ -841,11 +1182,43 @@ def count_fold(ctx, case, profile, strict_per_filter, grid=False):
             ctx.count("fold_strict_lazy_subject")
 
 
+def run_typed(ctx, rig, case, tally):
+    run_case(ctx, rig, case)
+    name, kind = case["filter"], case["kind"]
+    ctx.count("typed_cases")
+    tally["filter"][name] += 1
+    tally["kind"][kind] += 1
+    if SP.covered(name, kind):
+        ctx.count("typed_contract_cases")
+        if "q" not in SP.KIND_CAPS[kind] and len(case["data"]) >= 2:
+            # the subject offers the protocol the docstring names, but is not a
+            # positional sequence (dict, views, set, protocol-only objects ...)
+            ctx.count("typed_contract_non_sequence_subject")
+            tally["nonseq"][name] += 1
+    else:
+        ctx.count("typed_agreement_only_cases")
+    if kind == "undef":
+        ctx.count("typed_undefined_subjects")
+    if nontrivial(case):
+        ctx.dist([name, kind, case["data"], case["args"], case["kwargs"]])
+
+
 def run(ctx):
     rig = F.Rig()
     per_filter = {f: 0 for f in FILTERS}
     strict_per_filter = {f: 0 for f in sorted(SP.FOLDING)}
+    tally = {"filter": {f: 0 for f in TYPED_FILTERS}, "kind": {k: 0 for k in TYPED_KINDS},
+             "nonseq": {f: 0 for f in TYPED_FILTERS}}
+    tally["kind"].update({"list": 0, "tuple": 0})
     try:
+        # ---- subject types: every (filter, kind), statically partitioned
+        tgrid = typed_grid_cases()
+        for i, case in enumerate(tgrid):
+            if ctx.mine(i):
+                run_typed(ctx, rig, case, tally)
+                ctx.count("typed_grid_cases")
+        ctx.extra["typed_grid_size"] = len(tgrid) if ctx.shard == 0 else 0
+        trng = ctx.rng("typed")
         # ---- enumerated grid, statically partitioned
         grid = grid_cases()
         done = 0
@@ -874,7 +1247,20 @@ def run(ctx):
                 ctx.dist([name, case["kind"], case["data"], case["args"], case["kwargs"]])
             if i < 3 and ctx.shard in (0, 5):
                 ctx.sample(case)
+            # ---- the same generators on other subject types (1 per 3 cases)
+            if i % 3 == 2:
+                tname = TYPED_FILTERS[(i // 3 + ctx.shard) % len(TYPED_FILTERS)]
+                tcase = gen_typed_case(trng, tname)
+                if tcase is not None:
+                    run_typed(ctx, rig, tcase, tally)
+                    if i < 8 and ctx.shard == 3:
+                        ctx.sample(tcase)
             i += 1
+        for f, c in tally["filter"].items():
+            ctx.count("typed:" + f, c)
+        for k, c in tally["kind"].items():
+            if k not in ("list", "tuple"):
+                ctx.count("typed_kind:" + k, c)
         for f, c in per_filter.items():
             ctx.count("cases:" + f, c)
         ctx.count("filters_exercised_min_cases", min(per_filter.values()))
